@@ -66,7 +66,46 @@ def flaky_scipy(rhs: Any, y0: Any, jacobian: Any = None):  # noqa: ANN201
         failing = False
     if failing:
         return _AlwaysFails(integ)
+    try:
+        has_deadline = "kzt" in rhs.get_parameter_values()
+    except Exception:  # noqa: BLE001
+        has_deadline = False
+    if has_deadline:
+        return _FailsAfterDeadline(integ, rhs)
     return integ
+
+
+class _FailsAfterDeadline:
+    """Integrates normally until asked to go beyond the model's parameter ``kzt`` (read at every call): a row whose
+    integration fails in a LATER segment, after earlier segments succeeded."""
+
+    def __init__(self, inner: Any, model: Any) -> None:
+        self.inner = inner
+        self.model = model
+        self.y0 = inner.y0
+
+    def reset(self) -> None:
+        self.inner.reset()
+
+    def _late(self, t: float) -> bool:
+        try:
+            return float(t) > float(self.model.get_parameter_values().get("kzt", 1e300))
+        except Exception:  # noqa: BLE001
+            return False
+
+    def _fail(self):  # noqa: ANN202
+        from mxlpy.types import IntegrationFailure, Result
+
+        return Result(IntegrationFailure())
+
+    def integrate(self, *, t_end: float, steps: int | None = None):  # noqa: ANN201
+        return self._fail() if self._late(t_end) else self.inner.integrate(t_end=t_end, steps=steps)
+
+    def integrate_time_course(self, *, time_points: Any):  # noqa: ANN201
+        return self._fail() if self._late(max(time_points)) else self.inner.integrate_time_course(time_points=time_points)
+
+    def integrate_to_steady_state(self, *, tolerance: float, rel_norm: bool):  # noqa: ANN201
+        return self.inner.integrate_to_steady_state(tolerance=tolerance, rel_norm=rel_norm)
 
 
 class _AlwaysFails:
